@@ -43,9 +43,23 @@ fn one(ctx: &Ctx, rep: &mut Report, id: usize, cfg: Cfg, k: usize) {
     let values: Vec<u64> = (0..m).map(|j| pick_value(VALUE_CLASSES[2 + (j + k) % 4], cfg.n, &mut rng)).collect();
     // base promise vector: a mixture of None / Some
     let promises: Vec<Option<u64>> = (0..m).map(|j| pick_promise(PROMISE_CLASSES[(j + k) % 5], j + k, values[j], &mut rng)).collect();
+    // now and then two positions of the aggregate hold the SAME commitment (same value, same blinding) under different promises
+    let duplicate = m >= 2 && k % 3 == 0;
     let seeded = m == 1 && k % 2 == 0;
     let seed = if seeded { Some(rand_scalar(&mut rng)) } else { None };
-    let case = Case::build(cfg, values.clone(), promises.clone(), seed, Context::random(&mut rng), &mut rng);
+    let mut values = values;
+    let mut promises = promises;
+    if duplicate {
+        values[m - 1] = values[0];
+        promises[0] = Some(values[0] / 2);
+        promises[m - 1] = Some(values[0]);
+    }
+    let mut case = Case::build(cfg, values.clone(), promises.clone(), seed, Context::random(&mut rng), &mut rng);
+    if duplicate {
+        case.blindings[m - 1] = case.blindings[0].clone();
+        case.commitments[m - 1] = case.commitments[0].clone();
+        rep.count("duplicate_commitment_cases", 1);
+    }
     let replay = |what: &str| json!({"tier": if ctx.thorough() {"thorough"} else {"quick"}, "seed": ctx.seed, "leg": leg, "case": id, "descr": case.json(), "step": what});
     let prm = case.params();
     // ---- prover side: promise p at position j, accept iff p <= v (and p < 2^n)
